@@ -325,6 +325,71 @@ fn final_request(r: &mut Rng, g: &mut Gen) -> Step {
     }
 }
 
+/// C13, all eight slots of the table of retained packets end up in use: seven requests, then an
+/// eighth that is given up at one of its awaits (it may be in the session by then, with none,
+/// some or all of its bytes written); the next call is a SUBSCRIBE / UNSUBSCRIBE, which is
+/// refused for lack of a slot - and which, like every call, first finishes what is queued -
+/// then the application disconnects. Where the eighth request had got into the session, the
+/// wire carries what the uncancelled run carries.
+fn given_up_then_refused(seed: u64, verbose: bool) -> CaseOut {
+    let mut out = CaseOut::default();
+    let mut rng = Rng::new(seed);
+    let cfg = CaseCfg { rx: 128, tx: 2048, keepalive: 0, ..CaseCfg::default() };
+    let policy = IoPolicy { write: *rng.pick(&[Chunk::All, Chunk::One, Chunk::Fixed(3), Chunk::AllButOne]), pend_write: Pend::Always, pend_flush: Pend::Always, ..IoPolicy::default() };
+    let eighth = match rng.below(4) {
+        0 => pubq(2, "eighth", 8, rng.below(6)),
+        1 => Step::Subscribe(SubSpec { filters: vec![FilterSpec { filter: "eighth/#".into(), max_qos: 1, no_local: false, rap: false, rh: 0 }], props: vec![], cancel_at: None }),
+        _ => pub1("eighth", 8, rng.below(6)),
+    };
+    let refused = if rng.chance(1, 2) { Step::Subscribe(SubSpec { filters: vec![FilterSpec { filter: "ninth/#".into(), max_qos: 0, no_local: false, rap: false, rh: 0 }], props: vec![], cancel_at: None }) } else { Step::Unsubscribe(UnsubSpec { filters: vec!["ninth".into()], props: vec![], cancel_at: None }) };
+    let ending = match rng.below(3) {
+        0 => Step::DropConn,
+        _ => Step::Disconnect(DiscSpec { reason: None, props: None, cancel_at: None }),
+    };
+    let program = |cancel: Option<usize>| -> Vec<Step> {
+        let mut st = vec![Step::Connect(ConnectSpec { policy: policy.clone(), faults: vec![], connack: ConnackSpec::Normal { sp: SpMode::Force(false), reason: 0, props: vec![] }, broker: BrokerPolicy { acks: AckMode::Hold, ping: AckMode::Immediate, fail_pct: 0, longform_pct: 0 }, cancel_at: None })];
+        for k in 0..7 {
+            st.push(if k % 3 == 2 { Step::Subscribe(SubSpec { filters: vec![FilterSpec { filter: format!("s{}", k), max_qos: 1, no_local: false, rap: false, rh: 0 }], props: vec![], cancel_at: None }) } else { pub1("seven", k as u32, 2) });
+        }
+        st.push(with_cancel(&eighth, cancel));
+        st.push(refused.clone());
+        st.push(ending.clone());
+        st
+    };
+    let (alog, aworld) = run_script(&cfg, program(None), seed);
+    let a_obs = observe(&alog, &aworld.borrow());
+    let np = alog.ops.iter().find(|o| o.step == 8).map(|o| o.pendings).unwrap_or(0);
+    for j in 1..=np {
+        let (blog, bworld) = run_script(&cfg, program(Some(j)), seed);
+        let bw = bworld.borrow();
+        out.evaluations += 1;
+        let Some(op8) = blog.ops.iter().find(|o| o.step == 8) else { continue };
+        if op8.outcome != Outcome::Cancelled || op8.new_retained.is_empty() {
+            out.count("eighth_request_not_in_the_session_when_given_up", 1);
+            continue;
+        }
+        out.count("twins_compared", 1);
+        out.count("given_up_requests_followed_by_a_refused_one", 1);
+        out.nontrivial.push(hash_of(&(abstract_trace(&blog, &bw), j)));
+        let refused_op = blog.ops.iter().find(|o| o.step == 9);
+        if !refused_op.is_some_and(|o| matches!(o.outcome, Outcome::Err(ErrRepr::InflightExhausted | ErrRepr::NotReady))) {
+            out.count("ninth_request_not_refused", 1);
+        }
+        let b_obs = observe(&blog, &bw);
+        if let Some((what, msg)) = diff(&a_obs, &b_obs) {
+            out.violations.push(viol("C13", format!("C13/full-table/{}/{}", op8.kind, what), format!("eighth request given up at await {} (it was in the session, {} bytes of it written), then a refused {}, then {:?}: {}", j, op8.out_after - op8.out_before, refused.kind(), ending.kind(), msg)));
+            if verbose {
+                for l in render(&blog, &bw, 400) {
+                    println!("{}", l);
+                }
+            }
+            break;
+        }
+    }
+    out.key(format!("full-table/{}/{}", eighth.kind(), ending.kind()));
+    out
+}
+
 impl Check for C13 {
     fn id(&self) -> &'static str {
         "C13"
@@ -342,7 +407,7 @@ impl Check for C13 {
         v
     }
     fn workloads(&self) -> Vec<Workload> {
-        vec![Workload { name: "cancel-twin", quick: 20_000, thorough: 3_000_000 }]
+        vec![Workload { name: "cancel-twin", quick: 20_000, thorough: 3_000_000 }, Workload { name: "given-up-request-then-refused-request", quick: 300, thorough: 30_000 }]
     }
     fn min_nontrivial(&self, tier: Tier) -> usize {
         if tier == Tier::Quick { 300 } else { 3000 }
@@ -350,7 +415,10 @@ impl Check for C13 {
     fn required_counters(&self) -> Vec<&'static str> {
         vec!["twins_compared", "cancelled_and_survived", "cancelled_and_reissued", "requests_issued_with_pingreq_due", "requests_followed_by_a_qos0_publish", "pingreq_due_right_after_the_request"]
     }
-    fn run(&self, _workload: usize, seed: u64, _index: u64, tier: Tier, verbose: bool) -> CaseOut {
+    fn run(&self, workload: usize, seed: u64, _index: u64, tier: Tier, verbose: bool) -> CaseOut {
+        if workload == 1 {
+            return given_up_then_refused(seed, verbose);
+        }
         let mut out = CaseOut::default();
         let mut rng = Rng::new(seed);
         let mut profile = c13_profile(&mut rng);
@@ -1066,6 +1134,73 @@ fn send_buffer_full(rng: &mut Rng, seed: u64, verbose: bool) -> CaseOut {
     out
 }
 
+/// C15, a packet that meets the broker's Maximum Packet Size exactly (or misses it by a byte or
+/// two) is accepted by the transport in pieces of every kind: results and stream as with whole
+/// writes. The packet is a request's own, or (limit 5) an acknowledgement the client owes.
+fn at_the_limit(rng: &mut Rng, seed: u64, verbose: bool) -> CaseOut {
+    use crate::refcodec::{Prop, SPacket};
+    let mut out = CaseOut::default();
+    let cfg = CaseCfg { rx: 128, tx: 512, keepalive: 0, ..CaseCfg::default() };
+    let owed_ack = rng.chance(1, 4);
+    let request = match rng.below(4) {
+        0 => pub1("lim", 1, rng.below(40)),
+        1 => pubq(2, "lim2", 2, rng.below(40)),
+        2 => Step::Subscribe(SubSpec { filters: vec![FilterSpec { filter: "lim/#".into(), max_qos: 1, no_local: false, rap: false, rh: 0 }], props: vec![], cancel_at: None }),
+        _ => Step::Unsubscribe(UnsubSpec { filters: vec!["lim".into(), "x/y".into()], props: vec![], cancel_at: None }),
+    };
+    let len = if owed_ack {
+        5
+    } else {
+        let (_l, w) = run_script(&cfg, vec![connect_with(SpMode::Force(false), AckMode::Hold, vec![]), request.clone()], seed);
+        let w = w.borrow();
+        w.conns[0].out.packets.get(1).map(|p| p.end - p.start).unwrap_or(0)
+    };
+    if len < 3 {
+        return out;
+    }
+    let limit = (len + *rng.pick(&[0usize, 0, 1, 2])) as u32;
+    let chunks = [Chunk::All, Chunk::One, Chunk::Fixed(2), Chunk::Fixed(3), Chunk::AltOneAll, Chunk::AllButOne];
+    let mut reference: Option<(Vec<u8>, Vec<String>)> = None;
+    for (vi, ch) in chunks.iter().enumerate() {
+        let mut steps = vec![Step::Connect(ConnectSpec { policy: IoPolicy { write: *ch, ..IoPolicy::default() }, faults: vec![], connack: ConnackSpec::Normal { sp: SpMode::Force(false), reason: 0, props: vec![Prop::MaximumPacketSize(limit)] }, broker: BrokerPolicy { acks: AckMode::Hold, ping: AckMode::Immediate, fail_pct: 0, longform_pct: 0 }, cancel_at: None })];
+        if owed_ack {
+            steps.push(Step::Broker(BrokerAct::Send(SPacket::Publish { dup: false, qos: 1, retain: false, topic: "i".into(), pid: Some(9), props: vec![], payload: vec![] })));
+        } else {
+            steps.push(request.clone());
+        }
+        for _ in 0..4 {
+            steps.push(poll0());
+        }
+        let (log, world) = run_script(&cfg, steps, seed);
+        let w = world.borrow();
+        out.evaluations += 1;
+        out.count("twins_compared", 1);
+        if vi > 0 {
+            out.count("packets_at_the_limit_in_pieces", 1);
+            out.nontrivial.push(hash_of(&(abstract_trace(&log, &w), vi, len, limit)));
+        }
+        let bytes = w.conns[0].out.bytes.clone();
+        let results: Vec<String> = log.ops.iter().map(|o| format!("{}:{:?}", o.kind, o.outcome)).collect();
+        match &reference {
+            None => reference = Some((bytes, results)),
+            Some((rb, rr)) => {
+                if *rb != bytes || *rr != results {
+                    let ri = rr.iter().zip(&results).position(|(a, b)| a != b);
+                    out.violations.push(viol("C15", "C15/at-the-limit/stream-depends-on-write-pieces", format!("packet of {} bytes under Maximum Packet Size {}: with writes accepted {:?} the outbound stream / results differ from whole writes ({} vs {} bytes; first differing result {:?} vs {:?})", len, limit, ch, bytes.len(), rb.len(), ri.map(|i| &results[i]), ri.map(|i| &rr[i]))));
+                    if verbose {
+                        for l in render(&log, &w, 300) {
+                            println!("{}", l);
+                        }
+                    }
+                    break;
+                }
+            }
+        }
+    }
+    out.key(format!("at-the-limit/{}/{}", if owed_ack { "ack" } else { request.kind() }, limit as usize - len));
+    out
+}
+
 /// C15, the transport's send buffer fills up inside an acknowledgement the client owes (PUBACK,
 /// PUBREC, PUBCOMP): it accepts the first k bytes, for every k short of the whole packet, and
 /// then nothing more; the application gives the call up, lets go of the handle and connects
@@ -1458,13 +1593,13 @@ impl Check for C15 {
         v
     }
     fn workloads(&self) -> Vec<Workload> {
-        vec![Workload { name: "fragment-twin", quick: 900, thorough: 600_000 }, Workload { name: "exhaustive-chunkings", quick: 60, thorough: 6000 }, Workload { name: "stalls-under-keepalive", quick: 400, thorough: 600_000 }, Workload { name: "connection-cut-inside-a-packet", quick: 150, thorough: 30_000 }, Workload { name: "send-buffer-full-inside-a-packet", quick: 300, thorough: 60_000 }, Workload { name: "connection-ends-inside-an-outbound-packet", quick: 200, thorough: 40_000 }, Workload { name: "outbound-packets-above-64k", quick: 12, thorough: 600 }, Workload { name: "stalled-disconnect-then-reconnect", quick: 200, thorough: 40_000 }, Workload { name: "stalled-acknowledgement-then-reconnect", quick: 200, thorough: 40_000 }]
+        vec![Workload { name: "fragment-twin", quick: 900, thorough: 600_000 }, Workload { name: "exhaustive-chunkings", quick: 60, thorough: 6000 }, Workload { name: "stalls-under-keepalive", quick: 400, thorough: 600_000 }, Workload { name: "connection-cut-inside-a-packet", quick: 150, thorough: 30_000 }, Workload { name: "send-buffer-full-inside-a-packet", quick: 300, thorough: 60_000 }, Workload { name: "connection-ends-inside-an-outbound-packet", quick: 200, thorough: 40_000 }, Workload { name: "outbound-packets-above-64k", quick: 12, thorough: 600 }, Workload { name: "stalled-disconnect-then-reconnect", quick: 200, thorough: 40_000 }, Workload { name: "stalled-acknowledgement-then-reconnect", quick: 200, thorough: 40_000 }, Workload { name: "packet-at-the-broker-limit-in-pieces", quick: 200, thorough: 40_000 }]
     }
     fn min_nontrivial(&self, tier: Tier) -> usize {
         if tier == Tier::Quick { 300 } else { 3000 }
     }
     fn required_counters(&self) -> Vec<&'static str> {
-        vec!["twins_compared", "chunkings_enumerated_exhaustively", "variants_with_split_packets", "stalls_inside_a_packet", "calls_repeated_after_a_stall", "keepalive_stall_variants", "slow_partial_writes", "connections_cut_inside_a_packet", "requests_given_up_inside_their_packet", "connections_ended_inside_an_outbound_packet", "outbound_packets_above_64k", "disconnects_given_up_on_a_full_send_buffer"]
+        vec!["twins_compared", "chunkings_enumerated_exhaustively", "variants_with_split_packets", "stalls_inside_a_packet", "calls_repeated_after_a_stall", "keepalive_stall_variants", "slow_partial_writes", "connections_cut_inside_a_packet", "requests_given_up_inside_their_packet", "connections_ended_inside_an_outbound_packet", "outbound_packets_above_64k", "disconnects_given_up_on_a_full_send_buffer", "acknowledgements_stuck_on_a_full_send_buffer", "packets_at_the_limit_in_pieces"]
     }
     fn exhaustive(&self) -> bool {
         true
@@ -1492,6 +1627,9 @@ impl Check for C15 {
         }
         if workload == 8 {
             return stalled_ack(&mut rng, seed, verbose);
+        }
+        if workload == 9 {
+            return at_the_limit(&mut rng, seed, verbose);
         }
         let profile = c15_profile(&mut rng);
         let cfg = {
